@@ -1,12 +1,13 @@
 \* The default configuration hangs up after 5 consecutive BAD completions:
 \* the counter is one more piece of connection state.  Small alphabet (every
-\* completion goes through the command loop's normal path).
+\* completion goes through the command loop; SELECT_NOPE and DELETE_NOPE answer NO
+\* by way of an exception, CREATE_INBOX by way of a returned response).
 CONSTANTS
   Service = "imap"
   Users = {"u1"}
   Admins = {}
   Envs = {"plain"}
-  Cmds = {"NOOP", "NOOP_BAD", "UNKNOWN", "LIST_ALL", "LIST_BAD", "FETCH_1", "SELECT_INBOX", "LOGOUT"}
+  Cmds = {"NOOP", "NOOP_BAD", "UNKNOWN", "LIST_ALL", "LIST_BAD", "FETCH_1", "SELECT_INBOX", "SELECT_NOPE", "DELETE_NOPE", "CREATE_INBOX", "LOGOUT"}
   Forms = {"LOGIN"}
   Kinds = {"right"}
   Reauth = FALSE
